@@ -117,6 +117,17 @@ def build(case, tmp):
     return w_text, i_text, settings_w, settings, len(case["layers"])
 
 
+def case_x_text(case):
+    """The text of X (with the outer-use extras) exactly as build() writes it in place."""
+    tmp = tempfile.mkdtemp(prefix="verif-c06x-")
+    try:
+        _w, i_text, _sw, _si, _n = build({**case, "inner": "dir", "layers": []}, tmp)
+    finally:
+        shutil.rmtree(tmp, ignore_errors=True)
+    body = i_text[len("Outer before.\n\n"):]
+    return body[:body.rindex("\n\nOuter after")] + "\n"
+
+
 def between(doc):
     """Top-level children strictly between the 'Outer before.' and 'Outer after' paragraphs."""
     from docutils import nodes
@@ -185,6 +196,15 @@ def check_case(acc, case) -> list[dict]:
     # pre-transform
     got = between(dw)
     exp = between(di)
+    if exp is not None:
+        # X must also render the same on its own as when other text follows it (an unclosed fence inside a container, for
+        # example, takes in the following blank line): otherwise "the same Markdown in place" is not one well-defined thing
+        try:
+            x_alone, _ = front.docutils_parse(case_x_text(case), source_path=src, settings=st_i)
+            if pf(list(x_alone.children)) != pf(exp):
+                exp = None
+        except Exception:  # noqa: BLE001
+            exp = None
     if exp is None:
         # X is not self-contained (e.g. an unclosed construct swallows the text after it): outside the domain
         if acc is not None:
